@@ -502,7 +502,7 @@ int main(int argc, char** argv) {
         std::cout << (r.inconclusive ? "INCONCLUSIVE\n" : "PASS\n");
         return 0;
     }
-    if (args.mode == "dfs") return dfsMain(args, st, TAG_CONC, (int)args.num("structure", ST_DSET));
+    if (args.mode == "dfs") return dfsMain(args, st, pending, TAG_CONC, (int)args.num("structure", ST_DSET));
     hc::setRcParams(args);
     bool ok;
     if (args.mode == "seq") {
